@@ -155,52 +155,84 @@ def child_population(case):
             own_truth = {h: rng.choice(('good', 'stale', 'never')) for h in own_hosts}
             for me in pm.myselves:     # one Peer object per reported service; several may share a host
                 me.last_good = {'good': NOW - 50, 'stale': NOW - 2 * STALE, 'never': 0}[own_truth[me.host]]
-            for is_tor in (False, True):
-                for draw in range(case['draws']):
-                    res = pm.on_peers_subscribe(is_tor)
-                    out['evaluations'] += 1
-                    bump('peer_lists_checked')
-                    bump('peer_tuples_checked', len(res))
-                    ctx = {'seed': case['seed'], 'population': pop, 'is_tor': is_tor}
-                    buckets = {}
-                    onions = 0
-                    clear = 0
-                    for (ip_or_host, host, details) in res:
-                        if host in own_truth:
-                            bump('own_identities_advertised')
-                            clear += 1
-                            if own_truth[host] != 'good':
-                                out['violations'].append({'key': 'peers/stale-own-identity', 'what': f'own identity {host} advertised although {own_truth[host]}', 'witness': ctx})
-                            continue
-                        t = truth.get(host)
-                        if t is None:
-                            out['violations'].append({'key': 'peers/unknown-peer', 'what': f'unknown host {host!r} advertised', 'witness': ctx})
-                            continue
-                        if t['bad']:
-                            out['violations'].append({'key': 'peers/bad-peer-advertised', 'what': f'{host} is marked bad', 'witness': ctx})
-                        if t['age'] in ('juststale', 'stale', 'never'):
-                            out['violations'].append({'key': 'peers/not-recently-verified', 'what': f'{host} advertised with last_good {t["age"]}', 'witness': ctx})
-                        if t['public'] is False:
-                            out['violations'].append({'key': 'peers/non-public-advertised', 'what': f'{host!r} ({t["kind"]}) is not publicly routable / not a valid hostname', 'witness': ctx})
-                        if t['kind'] == 'onion':
-                            onions += 1
+            by_host = {p.host: p for p in pm.peers}
+            Clock.now = NOW
+            for epoch in range(4):
+                if epoch:
+                    # the peer set changes between requests on the same manager: peers turn bad, go stale as time
+                    # passes, are forgotten, get re-verified
+                    bump('state_changes_between_requests')
+                    for host in rng.sample(sorted(truth), max(1, len(truth) // 5)):
+                        t = truth[host]
+                        p = by_host[host]
+                        how = rng.choice(('bad', 'forget', 'reverify', 'unbad'))
+                        if how == 'bad':
+                            p.bad = t['bad'] = True
+                        elif how == 'unbad':
+                            p.bad = t['bad'] = False
+                        elif how == 'forget':
+                            pm.peers.discard(p)
+                            t['forgotten'] = True
                         else:
-                            clear += 1
-                            b = bucket_of(t['ip'])
-                            if b:
-                                buckets[b] = buckets.get(b, 0) + 1
-                    over = {b: n for b, n in buckets.items() if n > 2}
-                    if over:
-                        out['violations'].append({'key': 'peers/bucket-overflow', 'what': f'more than two peers in address bucket(s) {over}', 'witness': ctx})
-                    if any(n == 2 for n in buckets.values()):
-                        bump('lists_with_full_bucket')
-                    cap = 50 if is_tor else max(10, clear // 4)
-                    if onions > cap:
-                        out['violations'].append({'key': 'peers/too-many-onion', 'what': f'{onions} onion peers, bound {cap} (tor={is_tor})', 'witness': ctx})
-                    if onions >= 10:
-                        bump('lists_with_10+_onion')
-                    if len(out['violations']) > 10:
-                        break
+                            p.last_good = Clock.now - 5
+                            t['last_good'] = p.last_good
+                    if epoch == 2:
+                        Clock.now += rng.choice((30, 2000, 4000, STALE))      # time passes
+                    for host, t in truth.items():
+                        lg = by_host[host].last_good
+                        cutoff = Clock.now - STALE
+                        t['age'] = 'never' if not lg else ('good' if lg > cutoff + 0.5 else ('boundary' if abs(lg - cutoff) <= 0.5 else 'stale'))
+                    for me in pm.myselves:
+                        own_truth[me.host] = 'good' if me.last_good > Clock.now - STALE else ('never' if not me.last_good else 'stale')
+                for is_tor in (False, True):
+                    for draw in range(case['draws']):
+                        res = pm.on_peers_subscribe(is_tor)
+                        out['evaluations'] += 1
+                        bump('peer_lists_checked')
+                        bump('peer_tuples_checked', len(res))
+                        ctx = {'seed': case['seed'], 'population': pop, 'is_tor': is_tor}
+                        buckets = {}
+                        onions = 0
+                        clear = 0
+                        for (ip_or_host, host, details) in res:
+                            if host in own_truth:
+                                bump('own_identities_advertised')
+                                clear += 1
+                                if own_truth[host] != 'good':
+                                    out['violations'].append({'key': 'peers/stale-own-identity', 'what': f'own identity {host} advertised although {own_truth[host]}', 'witness': ctx})
+                                continue
+                            t = truth.get(host)
+                            if t is not None and t.get('forgotten'):
+                                out['violations'].append({'key': 'peers/forgotten-peer-advertised', 'what': f'{host} was dropped from the peer set but is still advertised', 'witness': ctx})
+                                continue
+                            if t is None:
+                                out['violations'].append({'key': 'peers/unknown-peer', 'what': f'unknown host {host!r} advertised', 'witness': ctx})
+                                continue
+                            if t['bad']:
+                                out['violations'].append({'key': 'peers/bad-peer-advertised', 'what': f'{host} is marked bad', 'witness': ctx})
+                            if t['age'] in ('juststale', 'stale', 'never'):
+                                out['violations'].append({'key': 'peers/not-recently-verified', 'what': f'{host} advertised with last_good {t["age"]}', 'witness': ctx})
+                            if t['public'] is False:
+                                out['violations'].append({'key': 'peers/non-public-advertised', 'what': f'{host!r} ({t["kind"]}) is not publicly routable / not a valid hostname', 'witness': ctx})
+                            if t['kind'] == 'onion':
+                                onions += 1
+                            else:
+                                clear += 1
+                                b = bucket_of(t['ip'])
+                                if b:
+                                    buckets[b] = buckets.get(b, 0) + 1
+                        over = {b: n for b, n in buckets.items() if n > 2}
+                        if over:
+                            out['violations'].append({'key': 'peers/bucket-overflow', 'what': f'more than two peers in address bucket(s) {over}', 'witness': ctx})
+                        if any(n == 2 for n in buckets.values()):
+                            bump('lists_with_full_bucket')
+                        cap = 50 if is_tor else max(10, clear // 4)
+                        if onions > cap:
+                            out['violations'].append({'key': 'peers/too-many-onion', 'what': f'{onions} onion peers, bound {cap} (tor={is_tor})', 'witness': ctx})
+                        if onions >= 10:
+                            bump('lists_with_10+_onion')
+                        if len(out['violations']) > 10:
+                            break
             out['sigs'].append(digest(('pop', case['seed'], pop)))
             if pop == 0:
                 out['sample'] = {'population': {h: t for h, t in list(truth.items())[:8]}, 'own': own_truth}
@@ -338,12 +370,13 @@ def child_features(case):
 def run(tier, seed, replay=None):
     rep = Report(PID, tier, seed, 'exploration')
     thorough = tier == 'thorough'
-    cases = [{'seed': seed * 1009 + i, 'pops': 6 if thorough else 3, 'draws': 200 if thorough else 60} for i in range(32)]
+    cases = [{'seed': seed * 1009 + i, 'pops': 6 if thorough else 3, 'draws': 50 if thorough else 15} for i in range(32)]
     rep.absorb(run_cases(child_population, cases, watchdog=600), 'population')
     fcases = [{'seed': seed * 2003 + i, 'n': 4000 if thorough else 500} for i in range(32)]
     rep.absorb(run_cases(child_features, fcases, watchdog=600), 'features')
     c = rep.counters
     rep.floor('peer_lists_checked', c['peer_lists_checked'], 5000)
+    rep.floor('state_changes_between_requests', c['state_changes_between_requests'], 200)
     rep.floor('peer_tuples_checked', c['peer_tuples_checked'], 20000)
     rep.floor('lists_with_full_bucket', c['lists_with_full_bucket'], 100)
     rep.floor('lists_with_10+_onion', c['lists_with_10+_onion'], 100)
@@ -354,7 +387,8 @@ def run(tier, seed, replay=None):
     return rep.finish(
         rule='(a) PeerManager populated with constructed peers (good/just-good/just-stale/stale/never/boundary x bad x public/private/'
              'special IPv4/IPv6, valid/invalid hostnames, localhost, onion, shared /16 and /56 buckets, missing ip_addr, own identities '
-             'recent/stale/never) x tor/non-tor requester x repeated draws with the clock shimmed; every returned tuple judged by an '
+             'recent/stale/never) x tor/non-tor requester x repeated draws with the clock shimmed x 4 epochs on the same manager between '
+             'which peers turn bad / are forgotten / re-verified and time passes; every returned tuple judged by an '
              'independent address-class table and hostname grammar, bucket and onion bounds recomputed independently. (b) '
              'Peer.peers_from_features and PeerManager.on_add_peer (peer discovery on, real getaddrinfo) on generated JSON feature '
              'dictionaries (wire round-tripped): never raise, ports None or 1..65535, is_public implies independent validity '
